@@ -476,6 +476,10 @@ func runC04(ctx *vh.Ctx) error {
 		if err := json.Unmarshal(ctx.Replay, &kc); err == nil && kc.Kind == "keyval" {
 			return c04KeyOne(ctx, &kc)
 		}
+		var fc c04FmCase
+		if err := json.Unmarshal(ctx.Replay, &fc); err == nil && fc.Kind == "fmap" {
+			return c04FmOne(ctx, &fc)
+		}
 		var c c04Case
 		if err := json.Unmarshal(ctx.Replay, &c); err != nil {
 			return err
@@ -488,6 +492,9 @@ func runC04(ctx *vh.Ctx) error {
 		}
 	}
 	if err := c04KeyFamily(ctx); err != nil {
+		return err
+	}
+	if err := c04FmFamily(ctx); err != nil {
 		return err
 	}
 	n := ctx.N(6000, 40000)
